@@ -171,8 +171,10 @@ OnlyLastEmpty == \A i \in 1..Len(c.pages) : c.pages[i] = <<>> => i = Len(c.pages
 (* the reference page lengths and a random id set (dense enough that many  *)
 (* ids are prefixes of each other); the harness turns every number of an   *)
 (* id into a character of an ascending alphabet.                           *)
-SmallKeys == Keys(3, 4)       \* 120 keys for n <= 60
-BigKeys   == Keys(4, 5)       \* 1364 keys for n around 1000
+\* (the alphabet of the harness mixes a digit, upper and lower case, an accented and a CJK
+\*  character, so the byte order of the ids is not the order after case folding or collation)
+SmallKeys == Keys(5, 3)       \* 155 keys for n <= 60
+BigKeys   == Keys(6, 4)       \* 1554 keys for n around 1000
 Ids(n) == RandomSubset(n, IF n <= 60 THEN SmallKeys ELSE BigKeys)
 RandSize(z) == RandomElement({4, 5, 6} \cup 8..49 \cup 51..70 \cup {999, 1001})
 
